@@ -14,7 +14,7 @@ DESCRIPTION = {
              "serializers - the wrong-type reply bearing the pending id is a protocol violation and the genuine reply still completes the request.  Enumerated synchronous-router job: the reply (success or ERROR) is delivered while transport.send() of the request is still running, for all "
              "six kinds: the request completes exactly once, a second copy is rejected.  IdGenerator is checked directly around 2^53.  Non-trivial = >=2 outstanding requests of "
              "different kinds answered in non-issue order; distinct by digest of the operation sequence."),
-    "assumptions": ["progressive results for calls that did not ask for them are a router fault and not generated"],
+    "assumptions": ["a progressive result for a call that did not ask for progress is a router fault: ignoring it and rejecting it are both accepted, completing the call with it is not"],
 }
 
 TWO53 = 9007199254740992
@@ -334,7 +334,18 @@ class Interp:
                     g.pop("unregistering", None)
             self.unchanged(snap, r["id"])
         elif kind == "progressive":
-            if r["kind"] != "call" or not r["opts"].get("on_progress"):
+            if r["kind"] != "call":
+                return
+            if not r["opts"].get("on_progress"):
+                # a router sending a progressive result that the call did not ask for: it may be ignored or rejected, but it is not the call's result
+                from autobahn.wamp.exception import ProtocolError
+                msg = M.Result(r["id"], args=list(args) or None, kwargs=dict(kwargs) or None, progress=True)
+                err = self.w.feed(msg)
+                if err is not None and not isinstance(err, ProtocolError):
+                    self.fail("progressive-result-raised|" + exc_key(err), "unrequested progressive result: %r" % (err,))
+                if r["track"].n:
+                    self.fail("progressive-result-completed-the-call", "a RESULT with progress=true completed call %d, which has no progress handler (value %r)" % (r["id"], r["track"].value))
+                self.unchanged(snap, None)
                 return
             plog = self.progress_log[r["id"]]
             n0 = len(plog)
